@@ -60,26 +60,26 @@ func itHandles(c *Ctx) []*itHandle {
 
 func init() {
 	register(&Rule{
-		ID: "IT-1", Props: []string{"C03", "C04", "C01", "C06", "C16"}, Min: 44,
+		ID: "IT-1", Props: []string{"C03", "C04", "C01", "C06", "C16"}, Min: 30,
 		Doc: `iterator lifecycle: every iterator created by MakeIBioSequence() is closed exactly once, by a closer that cannot run before the last push:
 (a) go func(){X.WaitAndClose()} or X.Wait();X.Close() in a goroutine, with Add/Done accounting (IT-2/IT-3); (b) X.Close() after W.Wait() where every
 pusher signals W after its last push; (c) X.Close() in the body that holds all pushes, after them; (d) no push at all.`,
 		Run: runIT1,
 	})
 	register(&Rule{
-		ID: "IT-2", Props: []string{"C03", "C04", "C01", "C06", "C16"}, Min: 40,
+		ID: "IT-2", Props: []string{"C03", "C04", "C01", "C06", "C16"}, Min: 28,
 		Doc: `producer count: the total amount given to X.Add equals the number of goroutines launched that call X.Done, compared symbolically
 (polynomials over loop trip counts, branch and closure multiplicities; for i:=a;i<b;i++ contributes b-a).`,
 		Run: runIT2,
 	})
 	register(&Rule{
-		ID: "IT-3", Props: []string{"C03", "C04", "C01", "C06", "C16"}, Min: 40,
+		ID: "IT-3", Props: []string{"C03", "C04", "C01", "C06", "C16"}, Min: 28,
 		Doc: `exactly one Done: in every producer body each path from entry to a normal exit executes X.Done() exactly once (directly or deferred) and no push
 follows it (typestate over go/cfg; fatal logging, panic and os.Exit are no-return).`,
 		Run: runIT3,
 	})
 	register(&Rule{
-		ID: "IT-6", Props: []string{"C03", "C04", "C01", "C06", "C16"}, Min: 44,
+		ID: "IT-6", Props: []string{"C03", "C04", "C01", "C06", "C16"}, Min: 30,
 		Doc: `capture stability: a handle variable captured by a function literal started with go must not be reassigned after its creation in the
 creating function (the goroutine may observe the new value and run the protocol on another iterator: double close / never closed, schedule dependent).`,
 		Run: runIT6,
